@@ -347,3 +347,5 @@ def run(chk, tier, only_rule=None):
     r03_6(chk, tier)
     r03_7(chk, tier)
     r03_8(chk, tier)
+    from . import c05
+    c05.r05_6(chk, tier, units=['core'], floor=60)   # buffer-exhausted tests are what makes chunked delivery safe
